@@ -214,7 +214,14 @@ func c12StructArgs(ctx *Ctx, fn c11Fn) []cty.Value {
 		for i := range vs {
 			vs[i] = []string{"%v", "%s", "%v", "%#v", "%q"}[r.Intn(5)]
 		}
-		args[0] = cty.StringVal(strings.Join(vs, []string{" ", "-", ""}[r.Intn(3)]))
+		f := strings.Join(vs, []string{" ", "-", ""}[r.Intn(3)])
+		if r.Intn(3) == 0 {
+			// a literal text before the first verb, with escaped percent signs: the prefix refinement of the
+			// unknown result must be the TEXT ("100% of "), not the format's spelling ("100%% of ")
+			// (a seeded change skipped doubled %% when looking for the first verb and kept the raw spelling)
+			f = []string{"100%% of ", "%%", "a%%b%% ", "%%%%", "x=", "é%% ", "rate: 5%%, "}[r.Intn(7)] + f
+		}
+		args[0] = cty.StringVal(f)
 	}
 	// small in-range indices for the positional functions
 	switch fn.name {
@@ -521,6 +528,10 @@ func c12Regressions() []c12Reg {
 	s := cty.StringVal
 	l := func(vs ...cty.Value) cty.Value { return cty.ListVal(vs) }
 	return []c12Reg{
+		// escaped percent signs before the first verb and an unknown argument (prefix refinement of format)
+		{"FormatFunc", []cty.Value{s("100%% of %s"), s("disk")}, []cty.Value{s("100%% of %s"), cty.UnknownVal(cty.String)}},
+		{"FormatFunc", []cty.Value{s("%%%s"), s("x")}, []cty.Value{s("%%%s"), cty.UnknownVal(cty.String).RefineNotNull()}},
+		{"FormatFunc", []cty.Value{s("a%%b%% %v!"), cty.NumberIntVal(7)}, []cty.Value{s("a%%b%% %v!"), cty.UnknownVal(cty.Number)}},
 		// /repo 86fdf13: formatlist kept the later iterators one element behind after an unknown element
 		{"FormatListFunc", []cty.Value{s("%s %s"), l(s("b"), s("a")), l(s("x"), s("y"))},
 			[]cty.Value{s("%s %s"), l(cty.UnknownVal(cty.String), s("a")), l(s("x"), s("y"))}},
